@@ -17,6 +17,10 @@ CLAIMED = {
         ref="§3 C02", technique="deterministic simulation: seeded schedule/fault search with simulated futex, deadlock and stall verdicts, virtual-time deadline check"),
 }
 
+CLAIMED["C13"] = dict(
+    text="Real coroutines (Task, Cancellable<Task>, Future awaitable, coroutine::Futex) on real ThreadPoolExecutor / AlwaysUseNewThreadExecutor running under the simulator; seeded search over interleavings of wake_one/wake_all/cancel/new waiters (cancel and wake released at the same instant a waiter is known suspended), completion vs. registration, completion vs. cancellation; oracles: resume ledger per suspension (exactly once, on the bound executor), wake return values vs. resumed waiters, wake_one/wake_all-missed rules stated in event order, optional empty iff cancel won, DepositBox slot balance (no leaked per-wait bookkeeping), simulated-heap use-after-free detection on coroutine frames. Found three genuine defects (fixed, see known_findings.json).",
+    ref="§3 C13", technique="deterministic simulation: seeded schedule search over real coroutines/executors, resume ledger, slot-balance and heap oracles")
+
 NOT_APPLICABLE = {
     "C12": "single-threaded value containers: behaviour is a pure function of the operation sequence; nothing in the statement depends on a schedule, clock, I/O or fault, so deciding it would be property-based testing, not simulation (DESIGN.md §4)",
 }
